@@ -340,6 +340,22 @@ pub fn source(c: &MsgCase) -> String {
             &mut s,
         );
     }
+    if let Some(t) = &rej {
+        // the failing call comes after an earlier, caught mock error about another call
+        s.push_str("    {\n");
+        s.push_str(&format!(
+            "        let u = Unimock::new({f}.each_call(matching!({pat}) /*MARK_L*/).returns(1u8)).no_verify_in_drop();\n"
+        ));
+        s.push_str(&format!(
+            "        let _ = std::panic::catch_unwind(std::panic::AssertUnwindSafe(|| {{ <Unimock as Tr{gargs}>::g(&u, 9u8); }}));\n"
+        ));
+        let mut body = String::new();
+        let callexpr = call(t, &mut body);
+        s.push_str(&body);
+        s.push_str(&format!(
+            "        let m = msg_of(std::panic::catch_unwind(std::panic::AssertUnwindSafe(|| {{ {callexpr}; }})));\n        out.push(format!(\"nomatch-after-error\\u{{3}}{{}}\", m));\n    }}\n"
+        ));
+    }
     if let Some(t) = &acc {
         scenario(
             "explicit",
@@ -465,7 +481,7 @@ pub fn judge(c: &MsgCase, line: &str) -> Result<CaseInfo, String> {
         };
         let msg = strip_ansi(raw);
         let tuple = match tag {
-            "nomatch" | "ordered-inputs" => rej.as_ref(),
+            "nomatch" | "ordered-inputs" | "nomatch-after-error" => rej.as_ref(),
             "nomock" => rej.as_ref().or(acc.as_ref()),
             _ => acc.as_ref(),
         };
@@ -566,12 +582,15 @@ pub fn judge(c: &MsgCase, line: &str) -> Result<CaseInfo, String> {
             if tag == "wrongorder-partial" {
                 classes.push("wrong-order-while-a-pattern-is-partly-consumed");
             }
+            if tag == "nomatch-after-error" {
+                classes.push("failing-call-after-an-earlier-caught-error");
+            }
             if tag.ends_with("-2nd") {
                 classes.push("error-raised-by-second-pattern-of-the-method");
             }
         }
         // mismatch positions
-        if matches!(tag, "nomatch" | "ordered-inputs")
+        if matches!(tag, "nomatch" | "ordered-inputs" | "nomatch-after-error")
             && c.pattern.guard.is_none()
             && c.pattern.alts.len() == 1
         {
@@ -626,7 +645,7 @@ pub fn judge(c: &MsgCase, line: &str) -> Result<CaseInfo, String> {
             }
         }
         classes.push(match tag {
-            "nomatch" => "kind:no-matching-call-patterns",
+            "nomatch" | "nomatch-after-error" => "kind:no-matching-call-patterns",
             "ordered-inputs" => "kind:inputs-not-matched-in-call-order",
             "explicit" | "explicit-2nd" => "kind:explicit-panic",
             "twice" | "twice-2nd" => "kind:cannot-return-twice",
